@@ -87,6 +87,7 @@ Expected(d, e, got) ==
       [] e.op = "sets"    -> CallRes(SetsCall(S, d, e.n, PipeC(e, got)))
       [] e.op = "reclaim" -> Res(Reclaim(d), "ok")
       [] e.op = "pickle"  -> Res(d, "ok")
+      [] e.op = "noop"    -> Res(d, "ok")
       [] OTHER            -> [Res(got, e.ret) EXCEPT !.adopt = TRUE]     \* block / scc / build / allseeds / expseeds
 
 \* the solver-order inputs must be permutations of the true minimal trap spaces of the start node
@@ -97,6 +98,50 @@ MtsOK(d, e) ==
          \/ (e.mts = <<>> /\ e.raised)
          \/ (SeqToSet(e.mts) = MinTrapsIn(S, sp) /\ Len(e.mts) = Cardinality(MinTrapsIn(S, sp)))
     ELSE TRUE
+
+(***************************************************************************)
+(* C13: the recorded iterations of symbolic_attractor_test (hook events)   *)
+(* are legal steps of the loop modelled in AttractorTest.tla and make      *)
+(* progress; the work of a call (executed loop back-edges in the library)  *)
+(* is bounded.                                                             *)
+(***************************************************************************)
+RECURSIVE VarClosure(_, _, _)
+VarClosure(X, vs, back) ==
+    LET nx == UNION {IF back THEN PreVar(S.nt, v, X) ELSE PostVar(S.nt, v, X) : v \in vs} IN
+    IF nx \subseteq X THEN X ELSE VarClosure(X \cup nx, vs, back)
+IterStepOK(a, b) ==
+    LET ra == SeqToSet(a.reach) rb == SeqToSet(b.reach)
+        aa == SeqToSet(a.avoid) ab == SeqToSet(b.avoid)
+        sa == SeqToSet(a.sat)   sb == SeqToSet(b.sat)
+        ua == SeqToSet(a.conf) \cup SeqToSet(a.other)
+        ub == SeqToSet(b.conf) \cup SeqToSet(b.other)
+    IN /\ ra \subseteq rb /\ aa \subseteq ab /\ sa \subseteq sb
+       /\ Cardinality(sb \ sa) <= 1
+       /\ ub = ua \ (sb \ sa) /\ SeqToSet(b.conf) \subseteq SeqToSet(a.conf)
+       /\ (a.force => b.force) /\ (a.noavoid <=> b.noavoid)
+       /\ rb \subseteq VarClosure(ra, sb, FALSE)             \* reach grows only along saturated variables
+       /\ ab \subseteq VarClosure(aa, sb, TRUE)
+       /\ (ra # rb \/ aa # ab \/ sa # sb \/ (~a.force /\ b.force))      \* progress
+LoopOK(L) ==
+    LET R  == S.reach[L.pivot]
+        A0 == SeqToSet(L.avoid0)
+        fv == FreeV(L.space) IN
+    /\ L.result # "hang"
+    /\ Len(L.its) >= 1 => /\ L.its[1].reach = <<L.pivot>> /\ SeqToSet(L.its[1].avoid) = A0 /\ L.its[1].sat = <<>>
+                           /\ SeqToSet(L.its[1].conf) = {i \in fv : \E s \in A0 : Bit(s, i) # Bit(L.pivot, i)}
+                           /\ SeqToSet(L.its[1].other) = fv \ SeqToSet(L.its[1].conf)
+    /\ \A i \in 1..(Len(L.its) - 1) : IterStepOK(L.its[i], L.its[i + 1])
+    /\ \A i \in DOMAIN L.its : SeqToSet(L.its[i].reach) \subseteq R
+    /\ Len(L.its) <= 2 * P2[S.nt.n + 1] + 2 * S.nt.n + 4
+    /\ (L.result = "closure") => (SeqToSet(L.final) = R /\ R \cap A0 = {})
+    /\ (L.result = "hit") => (R \cap A0 # {})
+LoopsOK(e) == \A k \in DOMAIN e.loops : LoopOK(e.loops[k])
+\* a generous function of the state space, the diagram size and the configured simulation budget
+WorkOK(e) ==
+    LET n == S.nt.n
+        nodes == Len(e.post.nodes)
+        per == 100 * P2[2 * n + 1] * (n + 1) + 16 * (1024 * P2[n + 1] + tr.cfg.simbudget * n) * (n + 1)
+    IN e.work \div (nodes + 2) <= per
 
 StripNode(nd) == [space |-> nd.space, expanded |-> nd.expanded, skipped |-> nd.skipped, how |-> nd.how]
 IdFreeNodes(d) == {StripNode(d.nodes[n]) : n \in Ids(d)}
@@ -121,8 +166,11 @@ Mismatch(x, got, e) ==
        \cup (IF x.xl = e.xl THEN {} ELSE {"XL"})
        \cup (IF x.unsound THEN {"ORACLE"} ELSE {}))
     \cup (IF e.exc = "Hang" THEN {"HANG"} ELSE {})
+    \cup (IF LoopsOK(e) THEN {} ELSE {"LOOP"})
+    \cup (IF WorkOK(e) THEN {} ELSE {"WORK"})
 
-PlainOp(e) == e.op \in {"new", "exp", "bfs", "dfs", "tgt", "aseeds", "cand", "seeds", "sets", "reclaim", "pickle"}
+PlainOp(e) == e.op \in {"new", "exp", "bfs", "dfs", "tgt", "aseeds", "cand", "seeds", "sets", "reclaim", "pickle",
+                         "control", "allseeds", "allsets", "expseeds", "noop"}
               \/ (e.op = "min" /\ ~e.skip) \/ (e.op = "block" /\ ~e.optsrc)
 
 \* C01: the six complete strategies with default settings, started on a fresh diagram
@@ -136,7 +184,7 @@ CompleteStrategy(e) ==
 NextMode(m, e) ==
     IF e.op = "new" THEN "fresh"
     ELSE IF m = "fresh" /\ CompleteStrategy(e) THEN "complete"
-    ELSE IF m = "complete" /\ e.op \in {"expseeds", "allseeds", "seeds", "cand", "sets", "reclaim", "pickle"} /\ ~e.raised THEN "complete"
+    ELSE IF m = "complete" /\ e.op \in {"expseeds", "allseeds", "allsets", "seeds", "cand", "sets", "reclaim", "pickle"} /\ ~e.raised THEN "complete"
     ELSE "other"
 
 InitEv == [op |-> "init"]
@@ -187,6 +235,8 @@ Inv_OUT    == Report("OUT",    "OUT" \notin bad)
 Inv_XL     == Report("XL",     "XL" \notin bad)
 Inv_ORACLE == Report("ORACLE", "ORACLE" \notin bad)
 Inv_HANG   == Report("HANG",   "HANG" \notin bad)
+Inv_LOOP   == Report("LOOP",   "LOOP" \notin bad)
+Inv_WORK   == Report("WORK",   "WORK" \notin bad)
 
 \* state invariants on every logged state
 Inv_WF == Report("WF", Started => RootOK(S, D) /\ EdgesWF(D) /\ NodesArePercolatedTraps(S, D))
